@@ -97,6 +97,9 @@ MUTANTS = [
     ("ex_mem_not_removed", "bitar/src/clone_output.rs", "if let Some(verified) = temp_store.remove(hash) {", "if let Some(verified) = temp_store.get(hash).cloned() {", ["C03"]),
     ("scan_size_wrong", "src/clone_cmd.rs", "index.add_chunk(hash, chunk.len(), &[chunk_offset]);", "index.add_chunk(hash, chunk.len(), &[chunk_offset + 1]);", ["C06", "C03"]),
     ("filesize_no_rewind", "src/clone_cmd.rs", "    let size = file.seek(SeekFrom::End(0)).await?;\n    file.seek(SeekFrom::Start(0)).await?;", "    let size = file.seek(SeekFrom::End(0)).await?;", ["C06"]),
+    ("gate_no_return", "src/clone_cmd.rs", "            return Err(anyhow!(\"Header checksum mismatch\"));", "            warn!(\"Header checksum mismatch\");", ["C14"]),
+    ("gate_only_for_existing", "src/clone_cmd.rs", "    if let Some(ref expected_checksum) = opts.header_checksum {\n        if expected_checksum.len()", "    if let Some(expected_checksum) = opts.header_checksum.as_ref().filter(|_| opts.seed_output || opts.force_create) {\n        if expected_checksum.len()", ["C14"]),
+    ("open_create_always", "src/clone_cmd.rs", "        .create(opts.force_create || opts.seed_output)\n", "        .create(true)\n", ["C14"]),
     ("flow_setlen_blockdev", "src/clone_cmd.rs", "    if !output_is_block_dev {\n        // Resize", "    if output_is_block_dev {\n        // Resize", ["C02", "C03"]),
     ("srcidx_offset0", "bitar/src/archive.rs", "ci.add_chunk(cd.checksum.clone(), cd.source_size as usize, &[offset]);", "ci.add_chunk(cd.checksum.clone(), cd.source_size as usize, &[offset / 2 * 2]);", ["C13", "C02"]),
 ]
